@@ -18,13 +18,18 @@ class MyErr(Exception):
 class QualErr(Exception):
     pass
 QualErr.__module__ = 'pkg.mod'
+class FalsyErr(Exception):
+    # an exception object that is false in a boolean context (an "error collection" that happens to be empty):
+    # whether an exception was raised never depends on its truth value
+    def __bool__(self):
+        return False
 def deep(k, cls, msg):
     return boom(k, cls, msg)
 '''
 
 HDR = 'Traceback (most recent call last):'
 EXC = {  # name in doctest source -> printed (qualified) name
-    'ValueError': 'ValueError', 'KeyError': 'KeyError', 'MyErr': 'MyErr', 'QualErr': 'pkg.mod.QualErr'}
+    'ValueError': 'ValueError', 'KeyError': 'KeyError', 'MyErr': 'MyErr', 'QualErr': 'pkg.mod.QualErr', 'FalsyErr': 'FalsyErr'}
 MSGS = ['bad', '', 'a: b', 'l1\nl2', 'x ... y', 'it is 3.5',
         # a message that quotes another traceback
         'worker failed:\nTraceback (most recent call last):\nKeyError: 1', 'see Traceback (most recent call last): above']
